@@ -58,6 +58,24 @@ def run(ctx):
         ctx.report([{"signature": "ids-" + inv, "detail": "observed NewUpload step rejected by Upload_idtrace at event %d: %s" % (hwm, json.dumps(bad)),
                      "family": "upload-idtrace", "events": events[max(0, hwm - 8):hwm + 1]}], "trace validation of ID allocation")
     ctx.cov["traces_validated_against_impl"] += len(ids)
+    # (T) what an observer sees while concurrent client uploads are in flight
+    ntr = 12 if q else 120
+    vp = os.path.join(ctx.work, "inflight.ndjson")
+    ctx.harness(["upload", "inflight", vp, ntr], timeout=1800)
+    ok, hwm, r = ctx.trace_validate("Upload_vis.tla", "Upload_vis.cfg", vp, timeout=900)
+    if not ok:
+        evs = ctx.read_ndjson(vp)
+        bad = evs[min(hwm, len(evs) - 1)]
+        vp2 = os.path.join(ctx.work, "inflight2.ndjson")
+        ctx.harness(["upload", "inflight", vp2, ntr * 3], timeout=1800)
+        ok2, hwm2, r2 = ctx.trace_validate("Upload_vis.tla", "Upload_vis.cfg", vp2, timeout=900)
+        if ok2:
+            raise vlib.Infra("in-flight observation rejected but not reproduced (event %d: %s)" % (hwm, json.dumps(bad)))
+        ctx.report([{"signature": "inflight-partial-or-phantom-visibility", "family": "upload-vis",
+                     "detail": "observation rejected by Upload_vis at event %d: %s" % (hwm, json.dumps(bad)), "events": evs[max(0, hwm - 10):hwm + 1]}],
+                   "trace validation of in-flight observations")
+    ctx.cov["traces_validated_against_impl"] += ntr
+    ctx.cov["inflight_events"] = sum(1 for _ in open(vp))
     overl = 0
     for c in ids:
         us = [s["u"] for s in c["steps"] if s["u"] != "-"]
